@@ -18,7 +18,8 @@ EXTENDS Integers, Sequences, FiniteSets, TLC
 FieldKinds == {"string", "int", "int64", "uint8", "float64", "bool", "bytes", "time", "iface", "rawmsg",
                "ptr-string", "ptr-struct", "slice-string", "slice-struct", "slice-ptr-struct", "array-int",
                "map-string", "map-struct", "map-int-key", "struct", "embedded", "embedded-ptr",
-               "self-ptr", "self-slice", "self-map", "mutual", "shared-twice", "deep-shared", "array-byte"}
+               "self-ptr", "self-slice", "self-map", "mutual", "shared-twice", "deep-shared", "array-byte",
+               "emb-unexported", "emb-unexported-ptr", "self-rich"}
 TagClasses == {"none", "renamed", "omitempty", "renamed-omitempty", "dash", "string-opt", "js-required", "js-description"}
 Styles == {"inline", "defs", "nested"}
 
